@@ -15,7 +15,11 @@ EXTRA=""; [ -n "$FEAT" ] && EXTRA="--features $FEAT"
 mv $DEMO /tmp/_in_$ID.demo.rs
 SUITE=$(cargo test --workspace --no-fail-fast --offline 2>&1 | grep -E "^test result|^error(\[|:)" | awk '/^test result/ {p+=$4; f+=$6} /^error/ {e+=1} END {print "passed",p,"failed",f,"build_errors",e+0}')
 mv /tmp/_in_$ID.demo.rs $DEMO
-WITH=$(cargo test -p $CRATE --offline $EXTRA --test test_mut_demo 2>&1 | grep -E "^test result" | head -1)
+WITHOUT_LOG=$(mktemp); cargo test -p $CRATE --offline $EXTRA --test test_mut_demo > $WITHOUT_LOG 2>&1
+WITH=$(grep -E "^test result" $WITHOUT_LOG | head -1)
+# a demo that ABORTS under the change (stack overflow, SIGABRT) prints no "test result" line: that is a failing demo too
+[ -z "$WITH" ] && grep -qE "signal: [0-9]+|SIGABRT|SIGSEGV|stack overflow" $WITHOUT_LOG && WITH="test result: FAILED. (test binary aborted: $(grep -m1 -oE 'signal: [0-9]+[^)]*|has overflowed its stack' $WITHOUT_LOG))"
+rm -f $WITHOUT_LOG
 git apply -R /tmp/_in_$ID.diff
 WITHOUT=$(cargo test -p $CRATE --offline $EXTRA --test test_mut_demo 2>&1 | grep -E "^test result" | head -1)
 git apply /tmp/_in_$ID.diff
